@@ -84,7 +84,7 @@ def history(ctx, P, case, final, rec_rounds=()):
 def extra(ctx, rec, model):
     case, P, out = rec['case'], rec['P'], rec['out']
     kind = case['kind']
-    if 'ok' not in out:
+    if 'ok' not in out or case.get('outside'):
         return
     T = case.get('n_iters', 1) or 0
     if kind != 'pam_update' and T == 0:
